@@ -158,6 +158,10 @@ func genC06(tier string, rng *rand.Rand) []Script {
 		}
 		add("options-matrix", st)
 	}
+	// another subscriber's slow filter must not eat this subscriber's timeout
+	for _, st := range slowFilterScripts() {
+		add("slow-filter", st)
+	}
 	// subscribers closed, new ones created, older ones keep receiving
 	for _, st := range churnScripts(map[string]int{"quick": 4, "thorough": 6}[tier]) {
 		add("churn", st)
@@ -244,6 +248,16 @@ func genC15(tier string, rng *rand.Rand) []Script {
 		for _, seq := range sequences([]Stim{pubS(0), recvS(0), advanceS}, L2) {
 			add("one-sub-nonpositive", append([]Stim{sub(1, 0, 0, 0, tm, true, true)}, seq...))
 		}
+	}
+	// option order: every permutation seed 1..24 of {WithFilter, WithTimeout, OnFiltered, OnTimeout} for a subscriber
+	// whose deliveries time out and whose filter rejects: timeout, both callbacks and the filter must all be in force
+	for ord := 0; ord <= 24; ord++ {
+		s := sub(1, 1, 2, 0, 0, true, true)
+		s.Ord = ord
+		out = append(out, Script{Family: "C15", Tags: []string{"option-order"}, Stims: renumber([]Stim{s, pubS(0), pubS(0), pubS(0), pubS(0), advanceS})})
+	}
+	for _, st := range slowFilterScripts() {
+		add("slow-filter", st)
 	}
 	// callbacks that close their subscriber / the publication from inside the callback
 	for _, st := range callbackCloseScripts(rng, map[string]int{"quick": 3, "thorough": 4}[tier], map[string]int{"quick": 2, "thorough": 3}[tier]) {
@@ -401,16 +415,50 @@ func genC10(tier string, rng *rand.Rand) []Script {
 	return out
 }
 
+// slowFilterScripts: s0's filter takes 100 ms (longer than s1's whole 60 ms timeout) and rejects or accepts;
+// s1 has room in its buffer (or is drained between the publishes).  Whichever of the two the Range visits first,
+// s1's own timeout starts when ITS delivery starts: its message must arrive, OnTimeout must not fire early.
+func slowFilterScripts() [][]Stim {
+	slow := func(fk, c int) Stim {
+		s := sub(c, fk, 1, 0, 2, true, true)
+		s.Slow = 100
+		return s
+	}
+	var out [][]Stim
+	for _, fk := range []int{1, 2} { // accept everything slowly / reject everything slowly
+		for _, c1 := range []int{1, 3} {
+			fast := sub(c1, 1, 1, 0, 0, true, true) // filter FMod 1 0 (accepts all), 60ms, both callbacks
+			out = append(out,
+				[]Stim{slow(fk, 2), fast, pubS(0), recvS(1), pubS(0), recvS(1), pubS(0), recvS(1), pubS(0)},
+				[]Stim{fast, slow(fk, 2), fast, pubS(0), recvS(0), recvS(2), pubS(0), recvS(0), recvS(2), pubS(0)})
+		}
+	}
+	return out
+}
+
 func generate(prop, tier string, rng *rand.Rand) []Script {
+	var out []Script
 	switch prop {
 	case "C06":
-		return genC06(tier, rng)
+		out = genC06(tier, rng)
 	case "C15":
-		return genC15(tier, rng)
+		out = genC15(tier, rng)
 	case "C10":
-		return genC10(tier, rng)
+		out = genC10(tier, rng)
 	}
-	return nil
+	// the order in which the options are passed to Subscribe is part of every script: a seeded permutation per
+	// subscriber (scripts of the option-order family fix it themselves)
+	for i := range out {
+		if len(out[i].Tags) > 0 && out[i].Tags[0] == "option-order" {
+			continue
+		}
+		for k := range out[i].Stims {
+			if out[i].Stims[k].Op == opSub {
+				out[i].Stims[k].Ord = 1 + rng.Intn(1000)
+			}
+		}
+	}
+	return out
 }
 
 func scopeText(prop, tier string, n int) string {
@@ -419,9 +467,9 @@ func scopeText(prop, tier string, n int) string {
 		if tier == "thorough" {
 			return fmt.Sprintf("%d scripts: every Publish/TryReceive sequence of length 8 for one subscriber (buffer 0,1,2 x no filter/even filter), every sequence of length 6 over {Publish,TryReceive s0,TryReceive s1} for 4 two-subscriber configurations, 3000 random scripts (2-4 subscribers, buffers 0-3, six filter kinds, callbacks present or nil, late subscriber); each followed by a drain", n)
 		}
-		return fmt.Sprintf("%d scripts: every Publish/TryReceive sequence of length 5 for one subscriber (buffer 0,1,2 x no filter / even filter+OnFiltered+OnTimeout), a 12-subscriber matrix of filter x OnFiltered x OnTimeout, churn (every sequence of length %d over {Subscribe, close oldest, close newest, Publish} after two subscribers), every sequence of length 4 over {Publish,TryReceive s0,TryReceive s1} for 4 two-subscriber configurations, 120 random scripts (2-4 subscribers, buffers 0-3, six filter kinds, callbacks present or nil, late subscriber); each followed by a drain", n, 4)
+		return fmt.Sprintf("%d scripts: every Publish/TryReceive sequence of length 5 for one subscriber (buffer 0,1,2 x no filter / even filter+OnFiltered+OnTimeout), a 12-subscriber matrix of filter x OnFiltered x OnTimeout, 8 slow-filter scripts (100ms filter next to a 60ms timeout), the option order of every Subscribe a seeded permutation, churn (every sequence of length %d over {Subscribe, close oldest, close newest, Publish} after two subscribers), every sequence of length 4 over {Publish,TryReceive s0,TryReceive s1} for 4 two-subscriber configurations, 120 random scripts (2-4 subscribers, buffers 0-3, six filter kinds, callbacks present or nil, late subscriber); each followed by a drain", n, 4)
 	case "C15":
-		return fmt.Sprintf("%d scripts: the two F11 witnesses, 60ms-vs-60s and 60ms-vs-160ms timeout pairs, zero and negative (-1s) timeouts (3 fixed scripts + every sequence of length %d over {Publish,TryReceive,Advance} each), Publish x12 into full buffers; callbacks that call Subscriber.Close / Publication.Close from inside OnTimeout / OnFiltered; every sequence of length %d over {Publish,TryReceive,Advance} for one subscriber with a 60ms timeout and both callbacks (buffer 0,1); every sequence of length %d over {Publish,TryReceive s0,TryReceive s1,Advance} for 3 two-subscriber configurations (s0 60ms, s1 60s); seeded random scripts (2-4 subscribers, buffers 0-2, timeouts 60ms/160ms/60s/0/-1s, callbacks present or nil); each followed by Advance + drain + a settled marker", n, map[string]int{"quick": 3, "thorough": 4}[tier], map[string]int{"quick": 4, "thorough": 5}[tier], map[string]int{"quick": 3, "thorough": 4}[tier])
+		return fmt.Sprintf("%d scripts: the two F11 witnesses, 60ms-vs-60s and 60ms-vs-160ms timeout pairs, zero and negative (-1s) timeouts (3 fixed scripts + every sequence of length %d over {Publish,TryReceive,Advance} each), Publish x12 into full buffers; 25 option orders of one subscriber; another subscriber's 100ms filter next to a 60ms timeout; the option order of EVERY Subscribe is a seeded permutation; callbacks that call Subscriber.Close / Publication.Close from inside OnTimeout / OnFiltered; every sequence of length %d over {Publish,TryReceive,Advance} for one subscriber with a 60ms timeout and both callbacks (buffer 0,1); every sequence of length %d over {Publish,TryReceive s0,TryReceive s1,Advance} for 3 two-subscriber configurations (s0 60ms, s1 60s); seeded random scripts (2-4 subscribers, buffers 0-2, timeouts 60ms/160ms/60s/0/-1s, callbacks present or nil); each followed by Advance + drain + a settled marker", n, map[string]int{"quick": 3, "thorough": 4}[tier], map[string]int{"quick": 4, "thorough": 5}[tier], map[string]int{"quick": 3, "thorough": 4}[tier])
 	case "C10":
 		return fmt.Sprintf("%d scripts: the F16 witness (Subscribe(0); Publish(1); Close) for Publication.Close and Subscriber.Close, a buffer-kept script, and for each of %d base scripts (1-3 subscribers, buffers 0-3, deliveries pending / buffered / timed out) a Close of each subscriber, of the publication, twice, both, and at two different positions injected at EVERY position; Close called from inside OnTimeout / OnFiltered callbacks; seeded random scripts with closes anywhere and subscribers joining after a close; each followed by a drain and a settled marker", n, map[string]int{"quick": 5, "thorough": 7}[tier])
 	}
